@@ -2,6 +2,7 @@
 pub mod ast;
 pub mod builtins;
 pub mod interp;
+pub mod lexer;
 pub mod ops;
 pub mod recogniser;
 pub mod value;
